@@ -11,28 +11,38 @@
 (*   Sub / SubCb / SubOne   Discovery.subscribe_computation without / with *)
 (*                          a persistent / with a one-shot callback       *)
 (*   Unsub / UnsubCb        Discovery.unsubscribe_computation(c) / (c, cb) *)
+(*   Rep / Unrep            Discovery.register_replica / unregister_replica *)
+(*   RSub / RSubCb / RUnsub Discovery.subscribe_replica without / with a    *)
+(*                          callback, unsubscribe_replica(c)               *)
 (*   DeliverUp(a)           DirectoryComputation handles the oldest        *)
 (*                          message of a: _on_publish_computation,         *)
 (*                          _on_unpublish_computation,                     *)
-(*                          _on_subscribe_computation                      *)
+(*                          _on_subscribe_computation, _on_publish_replica, *)
+(*                          _on_subscribe_replica                          *)
 (*   DeliverDown(a)         DiscoveryComputation of a handles the oldest   *)
-(*                          notification: _on_computation_added /_removed  *)
+(*                          notification: _on_computation_added /_removed, *)
+(*                          _on_replica_publish                            *)
 (* Client state per agent and computation: vHost (_computations_data),     *)
 (* key (`computation in self._computation_cbs`: the entry exists, possibly  *)
 (* with an empty list - one-shot callbacks are removed by slice assignment, *)
 (* which keeps the entry), pcb / ocb (persistent / one-shot callbacks in    *)
-(* the entry).  Directory state: dHost (_computations_data), dSub           *)
-(* (_subscription_computations).  Specification-level variables: host (who  *)
+(* the entry); vRep (_replicas_data), rkey / rpcb (_replicas_cbs).          *)
+(* Directory state: dHost (_computations_data), dSub                       *)
+(* (_subscription_computations), dRep (its discovery's _replicas_data),    *)
+(* dSubR (_subscription_replicas).  Specification-level variables: host (who  *)
 (* really hosts c: what the API calls said), sub (what each agent is still  *)
 (* subscribed to, as Discovery.tla defines it), and two history flags used  *)
 (* to state under which histories the views are known NOT to converge.      *)
 (***************************************************************************)
 EXTENDS Integers, Sequences, FiniteSets, TLC, Json
-CONSTANTS Agents, Comps, MaxOps
+CONSTANTS Agents, Comps, MaxOps, WithReplicas
 
-VARIABLES host, sub, vHost, key, pcb, ocb, dHost, dSub, up, down, nops, dropped, pubsMade, pubsGot, act
-impl == <<vHost, key, pcb, ocb, dHost, dSub, up, down>>
-vars == <<host, sub, impl, nops, dropped, pubsMade, pubsGot, act>>
+VARIABLES host, sub, vHost, key, pcb, ocb, dHost, dSub, up, down, nops, dropped, pubsMade, pubsGot, act,
+          reps, subR, vRep, rkey, rpcb, dRep, dSubR, everUnreg, rdropped
+rimpl == <<vRep, rkey, rpcb, dRep, dSubR>>
+rspec == <<reps, subR, rdropped>>
+impl == <<vHost, key, pcb, ocb, dHost, dSub, up, down, rimpl>>
+vars == <<host, sub, impl, nops, dropped, pubsMade, pubsGot, act, rspec, everUnreg>>
 
 Init == /\ host = [c \in Comps |-> ""] /\ sub = [a \in Agents |-> {}]
         /\ vHost = [a \in Agents |-> [c \in Comps |-> ""]]
@@ -42,6 +52,10 @@ Init == /\ host = [c \in Comps |-> ""] /\ sub = [a \in Agents |-> {}]
         /\ up = [a \in Agents |-> <<>>] /\ down = [a \in Agents |-> <<>>]
         /\ nops = 0 /\ dropped = {} /\ pubsMade = [c \in Comps |-> <<>>] /\ pubsGot = [c \in Comps |-> <<>>]
         /\ act = [n |-> "init"]
+        /\ reps = [c \in Comps |-> {}] /\ subR = [a \in Agents |-> {}] /\ everUnreg = {} /\ rdropped = {}
+        /\ vRep = [a \in Agents |-> [c \in Comps |-> {}]]
+        /\ rkey = [a \in Agents |-> [c \in Comps |-> FALSE]] /\ rpcb = [a \in Agents |-> [c \in Comps |-> 0]]
+        /\ dRep = [c \in Comps |-> {}] /\ dSubR = [c \in Comps |-> {}]
 
 Send(a, m) == up' = [up EXCEPT ![a] = Append(@, m)]
 Send2(a, m1, m2) == up' = [up EXCEPT ![a] = Append(Append(@, m1), m2)]
@@ -61,7 +75,7 @@ Reg(a, c) ==
   /\ IF vHost[a][c] # a /\ key[a][c] THEN Fired(a, c) ELSE ocb' = ocb
   /\ Send(a, PubC(c, a))
   /\ pubsMade' = [pubsMade EXCEPT ![c] = Append(@, a)]
-  /\ UNCHANGED <<sub, key, pcb, dHost, dSub, down, dropped, pubsGot>>
+  /\ UNCHANGED <<sub, key, pcb, dHost, dSub, down, dropped, pubsGot, rimpl, rspec, everUnreg>>
 
 \* unsubscribe_computation(c, None) as a function of the entry: what is left of it, and whether the directory is told
 UnsubAll(a, c) ==
@@ -73,34 +87,34 @@ Unreg(a, c) ==
   /\ host[c] = a /\ Op("unreg", a, c)
   /\ IF vHost[a][c] # a
      THEN \* the agent's own view names nobody (logged) or another agent (ValueError): the call changes nothing
-          UNCHANGED <<host, sub, impl, dropped, pubsMade, pubsGot>>
+          UNCHANGED <<host, sub, impl, dropped, pubsMade, pubsGot, rspec, everUnreg>>
      ELSE LET u == UnsubAll(a, c) IN
-          /\ host' = [host EXCEPT ![c] = ""]
+          /\ host' = [host EXCEPT ![c] = ""] /\ everUnreg' = everUnreg \cup {c}
           /\ sub' = [sub EXCEPT ![a] = @ \ {c}]
           /\ dropped' = dropped \cup {<<a, c>>}
           /\ vHost' = [vHost EXCEPT ![a][c] = ""]
           /\ key' = [key EXCEPT ![a][c] = u.keep]
           /\ pcb' = [pcb EXCEPT ![a][c] = 0] /\ ocb' = [ocb EXCEPT ![a][c] = 0]
           /\ IF u.tell THEN Send2(a, SubC(c, FALSE), UnpubC(c, a)) ELSE Send(a, UnpubC(c, a))
-          /\ UNCHANGED <<dHost, dSub, down, pubsMade, pubsGot>>
+          /\ UNCHANGED <<dHost, dSub, down, pubsMade, pubsGot, rimpl, rspec>>
 
 Sub(a, c) ==
   /\ host[c] # a /\ Op("sub", a, c)
   /\ sub' = [sub EXCEPT ![a] = @ \cup {c}]
   /\ Send(a, SubC(c, TRUE))
-  /\ UNCHANGED <<host, vHost, key, pcb, ocb, dHost, dSub, down, dropped, pubsMade, pubsGot>>
+  /\ UNCHANGED <<host, vHost, key, pcb, ocb, dHost, dSub, down, dropped, pubsMade, pubsGot, rimpl, rspec, everUnreg>>
 SubCb(a, c) ==
   /\ host[c] # a /\ pcb[a][c] < 2 /\ Op("subcb", a, c)
   /\ sub' = [sub EXCEPT ![a] = @ \cup {c}]
   /\ key' = [key EXCEPT ![a][c] = TRUE] /\ pcb' = [pcb EXCEPT ![a][c] = @ + 1]
   /\ IF key[a][c] THEN up' = up ELSE Send(a, SubC(c, TRUE))
-  /\ UNCHANGED <<host, vHost, ocb, dHost, dSub, down, dropped, pubsMade, pubsGot>>
+  /\ UNCHANGED <<host, vHost, ocb, dHost, dSub, down, dropped, pubsMade, pubsGot, rimpl, rspec, everUnreg>>
 SubOne(a, c) ==
   /\ host[c] # a /\ ocb[a][c] < 2 /\ Op("subone", a, c)
   /\ sub' = [sub EXCEPT ![a] = @ \cup {c}]
   /\ key' = [key EXCEPT ![a][c] = TRUE] /\ ocb' = [ocb EXCEPT ![a][c] = @ + 1]
   /\ IF key[a][c] THEN up' = up ELSE Send(a, SubC(c, TRUE))
-  /\ UNCHANGED <<host, vHost, pcb, dHost, dSub, down, dropped, pubsMade, pubsGot>>
+  /\ UNCHANGED <<host, vHost, pcb, dHost, dSub, down, dropped, pubsMade, pubsGot, rimpl, rspec, everUnreg>>
 Unsub(a, c) ==
   /\ c \in sub[a] /\ Op("unsub", a, c)
   /\ LET u == UnsubAll(a, c) IN
@@ -109,16 +123,66 @@ Unsub(a, c) ==
      /\ key' = [key EXCEPT ![a][c] = u.keep]
      /\ pcb' = [pcb EXCEPT ![a][c] = 0] /\ ocb' = [ocb EXCEPT ![a][c] = 0]
      /\ IF u.tell THEN Send(a, SubC(c, FALSE)) ELSE up' = up
-  /\ UNCHANGED <<host, vHost, dHost, dSub, down, pubsMade, pubsGot>>
+  /\ UNCHANGED <<host, vHost, dHost, dSub, down, pubsMade, pubsGot, rimpl, rspec, everUnreg>>
 UnsubCb(a, c) ==
   /\ pcb[a][c] >= 2 /\ Op("unsubcb", a, c)
   /\ pcb' = [pcb EXCEPT ![a][c] = @ - 1]
-  /\ UNCHANGED <<host, sub, vHost, key, ocb, dHost, dSub, up, down, dropped, pubsMade, pubsGot>>
+  /\ UNCHANGED <<host, sub, vHost, key, ocb, dHost, dSub, up, down, dropped, pubsMade, pubsGot, rimpl, rspec, everUnreg>>
+
+\* ---- client API, replicas ------------------------------------------------------------
+comp == <<host, sub, vHost, key, pcb, ocb, dHost, dSub, dropped, pubsMade, pubsGot>>
+RepMsg(c, x, on) == [t |-> IF on THEN "repOn" ELSE "repOff", c |-> c, a |-> x]
+RSubMsg(c, on) == [t |-> "rsub", c |-> c, a |-> IF on THEN "on" ELSE "off"]
+Rep(a, c) ==
+  /\ WithReplicas /\ host[c] # "" /\ host[c] # a /\ a \notin reps[c] /\ Op("rep", a, c)
+  /\ IF vHost[a][c] = ""
+     THEN \* register_replica raises UnknownComputation: the agent does not know the computation (yet)
+          UNCHANGED <<rimpl, rspec, up>>
+     ELSE /\ reps' = [reps EXCEPT ![c] = @ \cup {a}]
+          /\ vRep' = [vRep EXCEPT ![a][c] = @ \cup {a}]
+          /\ Send(a, RepMsg(c, a, TRUE))
+          /\ UNCHANGED <<subR, rdropped, rkey, rpcb, dRep, dSubR>>
+  /\ UNCHANGED <<comp, down, everUnreg>>
+Unrep(a, c) ==
+  /\ WithReplicas /\ a \in reps[c] /\ Op("unrep", a, c)
+  /\ reps' = [reps EXCEPT ![c] = @ \ {a}]
+  /\ IF a \in vRep[a][c]
+     THEN /\ vRep' = [vRep EXCEPT ![a][c] = @ \ {a}] /\ Send(a, RepMsg(c, a, FALSE))
+     ELSE UNCHANGED <<vRep, up>>      \* (the agent dropped what it knew of the replicas when it unsubscribed: nothing is un-published)
+  /\ UNCHANGED <<subR, rdropped, rkey, rpcb, dRep, dSubR, comp, down, everUnreg>>
+RSub(a, c) ==
+  /\ WithReplicas /\ (host[c] = a \/ c \in sub[a]) /\ Op("rsub", a, c)
+  /\ subR' = [subR EXCEPT ![a] = @ \cup {c}]
+  /\ Send(a, RSubMsg(c, TRUE))
+  /\ UNCHANGED <<reps, rdropped, vRep, rkey, rpcb, dRep, dSubR, comp, down, everUnreg>>
+RSubCb(a, c) ==
+  /\ WithReplicas /\ (host[c] = a \/ c \in sub[a]) /\ rpcb[a][c] < 2 /\ Op("rsubcb", a, c)
+  /\ subR' = [subR EXCEPT ![a] = @ \cup {c}]
+  /\ rkey' = [rkey EXCEPT ![a][c] = TRUE] /\ rpcb' = [rpcb EXCEPT ![a][c] = @ + 1]
+  /\ IF rkey[a][c] THEN up' = up ELSE Send(a, RSubMsg(c, TRUE))
+  /\ UNCHANGED <<reps, rdropped, vRep, dRep, dSubR, comp, down, everUnreg>>
+\* unsubscribe_replica(c): when the directory is told, everything known about the replicas of c is dropped (the agent's own too)
+RUnsub(a, c) ==
+  /\ WithReplicas /\ c \in subR[a] /\ Op("runsub", a, c)
+  /\ subR' = [subR EXCEPT ![a] = @ \ {c}] /\ rdropped' = rdropped \cup {<<a, c>>}
+  /\ IF rkey[a][c] /\ rpcb[a][c] = 0
+     THEN UNCHANGED <<vRep, rkey, rpcb, up>>
+     ELSE /\ rkey' = [rkey EXCEPT ![a][c] = FALSE] /\ rpcb' = [rpcb EXCEPT ![a][c] = 0]
+          /\ vRep' = [vRep EXCEPT ![a][c] = {}]
+          /\ Send(a, RSubMsg(c, FALSE))
+  /\ UNCHANGED <<reps, dRep, dSubR, comp, down, everUnreg>>
 
 \* ---- directory side -----------------------------------------------------------------
 Added(c, b) == [t |-> "added", c |-> c, a |-> b]
 Removed(c, b) == [t |-> "removed", c |-> c, a |-> b]
 NotifyAll(S, m) == down' = [x \in Agents |-> IF x \in S THEN Append(down[x], m) ELSE down[x]]
+RepAdded(c, x) == [t |-> "repAdded", c |-> c, a |-> x]
+RepRemoved(c, x) == [t |-> "repRemoved", c |-> c, a |-> x]
+\* the order in which the code iterates over a set of agents (a constant measured on the running interpreter)
+CONSTANT AgentOrder
+SeqOf(S) == SelectSeq(AgentOrder, LAMBDA x : x \in S)
+NotifySeq(a, ms) == down' = [down EXCEPT ![a] = @ \o ms]
+NotifyTwice(S, m) == down' = [x \in Agents |-> IF x \in S THEN Append(Append(down[x], m), m) ELSE down[x]]
 DeliverUp(a) ==
   /\ up[a] # <<>>
   /\ LET m == Head(up[a]) IN
@@ -128,21 +192,42 @@ DeliverUp(a) ==
                /\ dHost' = [dHost EXCEPT ![m.c] = m.a]
                /\ NotifyAll(dSub[m.c], Added(m.c, m.a))
                /\ pubsGot' = [pubsGot EXCEPT ![m.c] = Append(@, m.a)]
-               /\ UNCHANGED dSub
+               /\ UNCHANGED <<dSub, dRep, dSubR>>
           [] m.t = "unpub" ->
                \* the un-publication of an agent that is not the registered host is ignored (ccdc7d1)
                /\ IF dHost[m.c] = m.a
                   THEN /\ dHost' = [dHost EXCEPT ![m.c] = ""] /\ NotifyAll(dSub[m.c], Removed(m.c, m.a))
                   ELSE UNCHANGED <<dHost, down>>
-               /\ UNCHANGED <<dSub, pubsGot>>
+               /\ UNCHANGED <<dSub, pubsGot, dRep, dSubR>>
           [] m.t = "sub" /\ m.a = "on" ->
                /\ dSub' = [dSub EXCEPT ![m.c] = @ \cup {a}]
                /\ IF dHost[m.c] # "" THEN NotifyAll({a}, Added(m.c, dHost[m.c])) ELSE down' = down
-               /\ UNCHANGED <<dHost, pubsGot>>
-          [] OTHER ->
+               /\ UNCHANGED <<dHost, pubsGot, dRep, dSubR>>
+          [] m.t = "sub" ->
                /\ dSub' = [dSub EXCEPT ![m.c] = @ \ {a}]
-               /\ UNCHANGED <<dHost, down, pubsGot>>
-  /\ UNCHANGED <<host, sub, vHost, key, pcb, ocb, nops, dropped, pubsMade>>
+               /\ UNCHANGED <<dHost, down, pubsGot, dRep, dSubR>>
+          [] m.t = "repOn" ->
+               \* a replica of a computation the directory does not know is refused (58bc4f6: logged)
+               /\ IF dHost[m.c] # ""
+                  THEN /\ dRep' = [dRep EXCEPT ![m.c] = @ \cup {m.a}] /\ NotifyAll(dSubR[m.c], RepAdded(m.c, m.a))
+                  ELSE UNCHANGED <<dRep, down>>
+               /\ UNCHANGED <<dHost, dSub, pubsGot, dSubR>>
+          [] m.t = "repOff" ->
+               \* Directory.unregister_replica un-registers on its own discovery object WITH publication: the directory sends
+               \* itself the un-publication once more, and notifies the subscribers each time
+               /\ dRep' = [dRep EXCEPT ![m.c] = @ \ {m.a}]
+               /\ IF m.a \in dRep[m.c] THEN NotifyTwice(dSubR[m.c], RepRemoved(m.c, m.a)) ELSE NotifyAll(dSubR[m.c], RepRemoved(m.c, m.a))
+               /\ UNCHANGED <<dHost, dSub, pubsGot, dSubR>>
+          [] m.t = "rsub" /\ m.a = "on" ->
+               /\ dSubR' = [dSubR EXCEPT ![m.c] = @ \cup {a}]
+               /\ IF dHost[m.c] # ""
+                  THEN NotifySeq(a, [i \in 1..Len(SeqOf(dRep[m.c])) |-> RepAdded(m.c, SeqOf(dRep[m.c])[i])])
+                  ELSE down' = down
+               /\ UNCHANGED <<dHost, dSub, pubsGot, dRep>>
+          [] OTHER ->
+               /\ dSubR' = [dSubR EXCEPT ![m.c] = @ \ {a}]
+               /\ UNCHANGED <<dHost, dSub, down, pubsGot, dRep>>
+  /\ UNCHANGED <<host, sub, vHost, key, pcb, ocb, nops, dropped, pubsMade, vRep, rkey, rpcb, rspec, everUnreg>>
 
 \* ---- client side, notifications ---------------------------------------------------------
 DeliverDown(a) ==
@@ -150,17 +235,27 @@ DeliverDown(a) ==
   /\ LET m == Head(down[a]) IN
      /\ down' = [down EXCEPT ![a] = Tail(@)]
      /\ act' = [n |-> "down", a |-> a, c |-> m.t]
-     /\ IF m.t = "added"
-        THEN /\ vHost' = [vHost EXCEPT ![a][m.c] = m.a]
+     /\ CASE m.t = "added" ->
+             /\ vHost' = [vHost EXCEPT ![a][m.c] = m.a]
              /\ IF vHost[a][m.c] # m.a /\ key[a][m.c] THEN Fired(a, m.c) ELSE ocb' = ocb
-        ELSE \* a removal naming another agent than the one the view holds (or nobody) is ignored (58bc4f6)
+             /\ vRep' = vRep
+          [] m.t = "removed" ->
+             \* a removal naming another agent than the one the view holds (or nobody) is ignored (58bc4f6)
              /\ vHost' = IF vHost[a][m.c] = m.a THEN [vHost EXCEPT ![a][m.c] = ""] ELSE vHost
-             /\ ocb' = ocb
-  /\ UNCHANGED <<host, sub, key, pcb, dHost, dSub, up, nops, dropped, pubsMade, pubsGot>>
+             /\ ocb' = ocb /\ vRep' = vRep
+          [] m.t = "repAdded" ->
+             \* a replica of a computation the agent does not know (any more) is ignored (0ac87b7)
+             /\ vRep' = IF vHost[a][m.c] # "" THEN [vRep EXCEPT ![a][m.c] = @ \cup {m.a}] ELSE vRep
+             /\ UNCHANGED <<vHost, ocb>>
+          [] OTHER ->
+             /\ vRep' = [vRep EXCEPT ![a][m.c] = @ \ {m.a}]
+             /\ UNCHANGED <<vHost, ocb>>
+  /\ UNCHANGED <<host, sub, key, pcb, dHost, dSub, up, nops, dropped, pubsMade, pubsGot, rkey, rpcb, dRep, dSubR, rspec, everUnreg>>
 
 Quiet == \A a \in Agents : up[a] = <<>> /\ down[a] = <<>>
 Done == Quiet /\ nops = MaxOps /\ UNCHANGED vars
-Next == (\E a \in Agents, c \in Comps : Reg(a, c) \/ Unreg(a, c) \/ Sub(a, c) \/ SubCb(a, c) \/ SubOne(a, c) \/ Unsub(a, c) \/ UnsubCb(a, c))
+Next == (\E a \in Agents, c \in Comps : Reg(a, c) \/ Unreg(a, c) \/ Sub(a, c) \/ SubCb(a, c) \/ SubOne(a, c) \/ Unsub(a, c) \/ UnsubCb(a, c)
+                                          \/ Rep(a, c) \/ Unrep(a, c) \/ RSub(a, c) \/ RSubCb(a, c) \/ RUnsub(a, c))
         \/ (\E a \in Agents : DeliverUp(a) \/ DeliverDown(a)) \/ Done
 Spec == Init /\ [][Next]_vars
 
@@ -183,8 +278,17 @@ SubscribedAtDirectory == Quiet => \A a \in Agents : \A c \in sub[a] : a \in dSub
 \* (4) a view never names a host the computation never had
 ViewsNameRealHosts == \A a \in Agents : \A c \in Comps : vHost[a][c] \in {""} \cup {pubsMade[c][i] : i \in 1..Len(pubsMade[c])}
 
+\* replicas: the statement, and the directory's own table
+ReplicaConverged == Quiet => \A a \in Agents : \A c \in subR[a] : vRep[a][c] = dRep[c]
+DirectoryRepTrue == Quiet => \A c \in Comps : dRep[c] = reps[c]
+\* Both are violated (known finding: a replica published while the computation's host un-registers it).  What holds: as long as
+\* the computation was never un-registered and the agent never dropped its replica subscription,
+ReplicaConvergedIfStable == Quiet => \A a \in Agents : \A c \in subR[a] : (c \notin everUnreg /\ <<a, c>> \notin rdropped) => vRep[a][c] = dRep[c]
+DirectoryRepTrueIfStable == Quiet => \A c \in Comps : (c \notin everUnreg /\ \A a \in Agents : <<a, c>> \notin rdropped) => dRep[c] = reps[c]
+
 \* ---- binding ---------------------------------------------------------------------------
-Proj == [vHost |-> vHost, key |-> key, pcb |-> pcb, ocb |-> ocb, dHost |-> dHost, dSub |-> dSub, up |-> up, down |-> down, nops |-> nops]
-View == <<host, sub, impl, nops, dropped, pubsMade, pubsGot>>
+Proj == [vHost |-> vHost, key |-> key, pcb |-> pcb, ocb |-> ocb, dHost |-> dHost, dSub |-> dSub, up |-> up, down |-> down, nops |-> nops,
+         vRep |-> vRep, rkey |-> rkey, rpcb |-> rpcb, dRep |-> dRep, dSubR |-> dSubR]
+View == <<host, sub, impl, nops, dropped, pubsMade, pubsGot, rspec, everUnreg>>
 Edge == (Proj' = Proj /\ act' = act) \/ PrintT(<<"EDGE", ToJson(Proj), ToJson(act'), ToJson(Proj')>>)
 ====
